@@ -135,8 +135,8 @@ def init_obligations(R):
             mk = lambda n: SArr(x.shape, lambda idx, n=n: Z(z3.Function(n, *([z3.IntSort()] * len(idx) + [z3.RealSort()]))(*[to_z3(i) for i in idx])), n)
             return mk('r'), mk('theta'), mk('phi')
 
-    for order in (2, 4, 6, 8, 5):
-        def run():
+    for order, extra in [(o, False) for o in (2, 4, 6, 8, 5)] + [(4, True), (6, True)]:
+        def run(extra=extra):
             c = SX.ctx()
             N = {a: z3.Int('N' + a) for a in 'xyz'}
             mn = {a: z3.Real(a + 'min') for a in 'xyz'}
@@ -147,6 +147,13 @@ def init_obligations(R):
             param = {}
             for a in 'xyz':
                 param['N' + a], param[a + 'min'], param['d' + a] = Z(N[a]), Z(mn[a]), Z(d[a])
+                if extra:
+                    # a dictionary as aurel.parameters() builds it carries more keys (domain edge, length, thorn settings);
+                    # their values are unconstrained: the grid is defined by N, min and spacing alone
+                    param[a + 'max'], param['L' + a] = Z(z3.Real(a + 'max_in_dict')), Z(z3.Real('L' + a + '_in_dict'))
+            if extra:
+                param.update({'simname': 'run', 'simpath': '/s/', 'datapath': '/s/run/', 'max_refinement_levels': 1, 'list_of_thorns': ['CoordBase'],
+                              'CoordBase::boundary_size_x_lower': 3, 'time': Z(z3.Real('time_in_dict'))})
             fd = C2S(param, boundary='no boundary', fd_order=order, verbose=False)
             I = {a: c.new_int('i' + a) for a in 'xyz'}
             for a in 'xyz':
@@ -180,7 +187,7 @@ def init_obligations(R):
         t0 = time.time()
         try:
             paths = explore(run)
-            discharge(R, f'fd.__init__[fd_order={order}]', '__init__', paths)
+            discharge(R, f'fd.__init__[fd_order={order}{", parameter dictionary with extra keys" if extra else ""}]', '__init__', paths)
         except (SX.PathAbort, TypeError, AttributeError) as e:
             if 'arange with step' in str(e):
                 # np.arange(start, stop, step) with a real step: its length is ceil((stop-start)/step) evaluated in binary64,
@@ -301,6 +308,10 @@ def native_grid_replay(o=None):
             for d in (0.1, 0.3, 1 / 3, 0.7, 8.6662, 1e-3, 0.25):
                 n += 1
                 par = dict(Nx=N, Ny=N + 1, Nz=N + 2, xmin=mn, ymin=mn, zmin=mn, dx=d, dy=d, dz=d)
+                if n % 3 == 0:
+                    # dictionaries built by aurel.parameters() carry the domain edge and length as well
+                    par.update(xmax=mn + (N + 1) * d, ymax=mn + (N + 2) * d, zmax=mn + (N + 3) * d, Lx=(N + 1) * d, Ly=(N + 2) * d, Lz=(N + 3) * d,
+                               simname='run', max_refinement_levels=1)
                 try:
                     fd = aurel.FiniteDifference(par, verbose=False)
                 except Exception as e:
@@ -309,7 +320,7 @@ def native_grid_replay(o=None):
                 if fd.x.shape != (N, N + 1, N + 2) or (fd.Nx, fd.Ny, fd.Nz) != (N, N + 1, N + 2):
                     bad.append(f'N={N} min={mn} d={d}: shapes {fd.x.shape}, N attrs {(fd.Nx, fd.Ny, fd.Nz)}')
                 elif max(abs(fd.xmax - (mn + (N - 1) * d)), abs(fd.ymax - (mn + N * d)), abs(fd.zmax - (mn + (N + 1) * d))) > 1e-12 * (1 + abs(mn) + N * d):
-                    bad.append(f'N={N} min={mn} d={d}: extents {(fd.xmax, fd.ymax, fd.zmax)}')
+                    bad.append(f'parameters {par}: extents {(fd.xmax, fd.ymax, fd.zmax)} but the last grid points are {(fd.xarray[-1], fd.yarray[-1], fd.zarray[-1])}')
                 elif N >= 2 * fd.mask_len * 2 + 1 and (
                         fd.cutoffmask(fd.x).shape != tuple(q - 2 * fd.mask_len for q in fd.x.shape)
                         or fd.cutoffmask2(fd.x).shape != tuple(q - 4 * fd.mask_len for q in fd.x.shape)
